@@ -26,6 +26,19 @@ fn viol(driver: &str, class: &str, text: &str, expect: &str, got: &str) -> Viola
 }
 
 pub fn replay(case: &serde_json::Value) -> Option<Violation> {
+    if let Some(tree) = case.get("tree").and_then(|t| t.as_str()) {
+        // relation case: the tree is stored in Debug form
+        let prog = crate::dbgparse::parse_debug_block(tree).ok()?;
+        let lt = [0u8; 8];
+        return check_relations(&prog, &lt).err().map(|(class, text, expect, got)| Violation {
+            property: "C07".into(),
+            driver: "replay".into(),
+            class,
+            case: json!({"relation_text": text, "tree": tree}),
+            expected: expect,
+            observed: got,
+        });
+    }
     let text = case.get("text")?.as_str()?;
     let expect = case.get("expect_debug")?.as_str()?;
     let got = parse_debug_of(text);
@@ -358,6 +371,41 @@ impl<'a, 'b> SynGen<'a, 'b> {
     }
 }
 
+/// Relations between parses that hold whatever tree a text denotes (so they also cover texts outside U7):
+/// (1) context independence: a statement that is terminated by `;` denotes the same tree wherever it stands, i.e.
+///     parse(A; B; C) = parse(A;) ++ parse(B;) ++ parse(C;);  (2) layout independence of a token sequence.
+fn check_relations(prog: &BlockStmt, layout_tape: &[u8]) -> Result<(), (String, String, String, String)> {
+    let inner = |d: String| -> Option<String> { d.strip_prefix('[').and_then(|x| x.strip_suffix(']')).map(|x| x.to_string()) };
+    let whole_text = print_raw(prog);
+    let whole = parse_debug_of(&whole_text);
+    if whole.starts_with("parse error") || whole.starts_with("panic") {
+        // raw texts need not parse (e.g. a function literal that became an infix operand); nothing to relate then
+        return Ok(());
+    }
+    let mut parts = Vec::new();
+    for s in prog {
+        let t = print_raw(&vec![s.clone()]);
+        let d = parse_debug_of(&t);
+        match inner(d.clone()) {
+            Some(x) if !d.starts_with("parse error") => parts.push(x),
+            _ => return Err(("relation:context".into(), t, "a statement of a text that parses, parses on its own as well".into(), d)),
+        }
+    }
+    let joined = format!("[{}]", parts.join(", "));
+    if joined != whole {
+        return Err(("relation:context".into(), whole_text, format!("the statements one by one: {joined}"), whole));
+    }
+    let mut t = Tape::new(layout_tape);
+    for _ in 0..2 {
+        let l = print_raw_layout(prog, &mut t);
+        let d = parse_debug_of(&l);
+        if d != whole {
+            return Err(("relation:layout".into(), l, whole, d));
+        }
+    }
+    Ok(())
+}
+
 pub fn gen_syntax(tape: &[u8]) -> (BlockStmt, usize) {
     let mut t = Tape::new(tape);
     let mut g = SynGen { t: &mut t, nodes: 0 };
@@ -380,7 +428,8 @@ pub fn run(ctx: &Ctx) -> Report {
         "(1) ALL expression trees with <=3 binary operators (every Catalan shape x every operator tuple) and ALL full depth-3 trees with one operator per level, \
          each as statement / initialiser / assignment / element assignment and under every op-assignment; (2) random statement-level syntax trees over the whole grammar \
          (else-if chains <=4); every tree printed with minimal parentheses and under random layouts (all whitespace code points, line comments, redundant parentheses, \
-         optional `;` `,` present or absent, `anders als` vs `anders { als }`, `a op= e` sugar); oracle: Debug(parse(text)) == Debug(tree). \
+         optional `;` `,` present or absent, `anders als` vs `anders { als }`, `a op= e` sugar); oracle: Debug(parse(text)) == Debug(tree); \
+         plus two relations on texts printed without the U7 parentheses (whatever tree they denote): a `;`-terminated statement denotes the same tree wherever it stands, and a token sequence denotes the same tree under every layout. \
          non-trivial = tree with >=2 binary operators or an else-if chain >=2; distinct by tree",
     );
     rep.exhaustive = false;
@@ -406,12 +455,25 @@ pub fn run(ctx: &Ctx) -> Report {
                 }
             }
             let lt = &tape[used.min(tape.len())..];
-            check_tree(r, "random", &prog, Some(lt), 3, !shrinking).map_err(|e| e.0)
+            check_tree(r, "random", &prog, Some(lt), 3, !shrinking).map_err(|e| e.0)?;
+            if !shrinking {
+                r.eval();
+                r.count("relations");
+            }
+            check_relations(&prog, lt).map_err(|e| e.0)
         });
         if let Some((tape, _)) = fail {
             let (prog, used) = gen_syntax(&tape);
             let lt: Vec<u8> = tape[used.min(tape.len())..].to_vec();
             let mut scratch = Report::new("C07", "exploration", "");
+            if check_tree(&mut scratch, "random", &prog, Some(&lt), 3, false).is_ok() {
+                if let Err((class, ..)) = check_relations(&prog, &lt) {
+                    let small = crate::minimize::minimize_any(&prog, &mut |p| matches!(check_relations(p, &lt), Err((c, ..)) if c == class), 4000);
+                    if let Err((class, text, expect, got)) = check_relations(&small, &lt) {
+                        r.violation(Violation { property: "C07".into(), driver: "relations".into(), class, case: json!({"relation_text": text, "tree": format!("{small:?}")}), expected: expect, observed: got });
+                    }
+                }
+            }
             if let Err((class, ..)) = check_tree(&mut scratch, "random", &prog, Some(&lt), 3, false) {
                 let small = crate::minimize::minimize(
                     &prog,
